@@ -42,6 +42,8 @@ pub struct WorldExec {
     /// the reloader thread of this cache (as seen by the yield hook)
     hr_thread: Option<u64>,
     leak: bool,
+    /// how long the quiescence barrier (and `reload_bounded`) waits before answering `sync-timeout`
+    pub wait_secs: u64,
 }
 
 pub const ALL_TYPES: &[&str] = &["S0", "S1", "S2", "N0", "I", "M00", "M01", "M10", "M11", "M20", "M21", "M30", "M31", "M40", "M41", "M50", "M51",
@@ -49,6 +51,11 @@ pub const ALL_TYPES: &[&str] = &["S0", "S1", "S2", "N0", "I", "M00", "M01", "M10
 
 fn catch<R>(f: impl FnOnce() -> R) -> Result<R, ()> {
     std::panic::catch_unwind(std::panic::AssertUnwindSafe(f)).map_err(|_| ())
+}
+
+/// decimal digits only (what the model driver's `String.toNat?` accepts from the generators)
+fn strict_nat(s: &str) -> Option<usize> {
+    if s.is_empty() || s.len() > 9 || !s.bytes().all(|b| b.is_ascii_digit()) { None } else { s.parse().ok() }
 }
 
 pub fn quiet_panics() {
@@ -89,7 +96,7 @@ impl WorldExec {
                 std::thread::yield_now();
             }
         }
-        WorldExec { src, fe, via_any, has_reloader, handles: BTreeMap::new(), next_h: 0, watchers: BTreeMap::new(), hr_thread, leak: false, universe_ids: crate::eng_cache::IDS.iter().map(|s| s.to_string()).chain(["".to_string(), "d".to_string(), "d.e".to_string()]).collect() }
+        WorldExec { src, fe, via_any, has_reloader, handles: BTreeMap::new(), next_h: 0, watchers: BTreeMap::new(), hr_thread, leak: false, wait_secs: 20, universe_ids: crate::eng_cache::IDS.iter().map(|s| s.to_string()).chain(["".to_string(), "d".to_string(), "d.e".to_string()]).collect() }
     }
 
     /// Quiescence barrier without sleeping: nothing is pending in either channel and the reloader
@@ -98,13 +105,35 @@ impl WorldExec {
         let (Some(t), Fe::Shared(c), Some(tx)) = (self.hr_thread, &self.fe, self.src.sender()) else { return true };
         let t0 = std::time::Instant::now();
         let mut stable = 0;
-        while t0.elapsed().as_secs() < 20 {
+        while t0.elapsed().as_secs() < self.wait_secs {
             let quiet = tx.verif_pending() == 0 && c.verif_msgs_pending() == Some(0)
                 && HR_THREADS.lock().unwrap_or_else(|e| e.into_inner()).get(&t).copied() == Some(true);
             if quiet { stable += 1; if stable >= 2 { return true; } } else { stable = 0; }
             std::thread::yield_now();
         }
         false
+    }
+
+    /// `hot_reload()` with a bounded wait (engine `fault`: a reloader thread killed by a fault strands its caller
+    /// forever). The call runs on a helper thread; if it has not returned after `wait_secs` the answer is
+    /// `sync-timeout`, the helper stays parked and the cache is leaked (it must outlive the parked call).
+    pub fn reload_bounded(&mut self) -> String {
+        if !self.sync() { return "sync-timeout".into(); }
+        if let Fe::Shared(c) = &self.fe {
+            let p = &**c as *const AssetCache<MemSource> as usize;
+            let (tx, rx) = std::sync::mpsc::channel::<()>();
+            std::thread::spawn(move || {
+                let c: &AssetCache<MemSource> = unsafe { &*(p as *const AssetCache<MemSource>) };
+                c.hot_reload();
+                let _ = tx.send(());
+            });
+            match rx.recv_timeout(std::time::Duration::from_secs(self.wait_secs)) {
+                Ok(()) => {}
+                Err(std::sync::mpsc::RecvTimeoutError::Timeout) => { self.leak = true; return "sync-timeout".into(); }
+                Err(std::sync::mpsc::RecvTimeoutError::Disconnected) => return "panic".into(),
+            }
+        }
+        if self.sync() { "ok".into() } else { "sync-timeout".into() }
     }
 
     fn any(&self) -> AnyCache<'_> {
@@ -164,16 +193,18 @@ impl WorldExec {
             "src.mkdir" if w.len() == 2 => { self.src.mkdir(&s(1)); "ok".into() }
             "src.rmdir" if w.len() == 2 => { self.src.rmdir(&s(1)); "ok".into() }
             "fault.read" if w.len() == 3 => {
+                let Some(k) = strict_nat(w[1]) else { return "bad-op".into() };
                 let mut g = self.src.lock();
-                let at = g.ios + w[1].parse::<usize>().unwrap_or(0);
+                let at = g.ios + k;
                 g.faults.insert(at, w[2].to_string());
                 "ok".into()
             }
-            "fault.clear" => { self.src.lock().faults.clear(); loader_faults().1.clear(); "ok".into() }
+            "fault.clear" if w.len() == 1 => { self.src.lock().faults.clear(); loader_faults().1.clear(); "ok".into() }
             "fault.load" if w.len() == 3 => {
                 if w[2] != "panic" && w[2] != "err" { return "bad-op".into(); }
+                let Some(k) = strict_nat(w[1]) else { return "bad-op".into() };
                 let mut f = loader_faults();
-                let at = f.0 + w[1].parse::<usize>().unwrap_or(0);
+                let at = f.0 + k;
                 f.1.insert(at, w[2] == "panic");
                 "ok".into()
             }
